@@ -298,3 +298,20 @@ B("C19", BASE, "                self.base.nodes.drop(columns=unshared_cols + [na
 B("C19", BASE, "                if channel.current_name not in [c.current_name for c in others]:\n                    self.base.membrane_current_names.remove(channel.current_name)", "                self.base.membrane_current_names.remove(channel.current_name)", "R-C19-undo")
 # F12 (repaired): re-introduce the stale read
 B("C16", CU, "            all_types.append(int(content[min(1, len(content) - 1)][1]))", "            all_types.append(int(current_type))", "R-C16-stale")
+# algebraically identical ways of writing the current terms of the voltage equation
+for _p in ("C01", "C15", "C08"):
+    P(_p, BASE, '            "constant_terms": (const_terms + i_ext + syn_const_terms) / cm,', '            "constant_terms": syn_const_terms / cm + (i_ext + const_terms) * (1.0 / cm),')
+B("C08", BASE, '            "constant_terms": (const_terms + i_ext + syn_const_terms) / cm,', '            "constant_terms": (const_terms + syn_const_terms) / cm + i_ext,', "R-C08-charge")
+B("C08", BASE, '            "constant_terms": (const_terms + i_ext + syn_const_terms) / cm,', '            "constant_terms": (const_terms + 2 * i_ext + syn_const_terms) / cm,', "R-C08-charge")
+# R-C16-split
+B("C16", CU, "        branches.append(branch[i * num_points_each - 1 : (i + 1) * num_points_each])", "        branches.append(branch[i * num_points_each : (i + 1) * num_points_each])", "R-C16-split")
+B("C16", CU, "    all_last_inds = [b[-1] for b in all_branches]", "    all_last_inds = [b[0] for b in all_branches]", "R-C16-split")
+B("C16", CU, '        sorting = np.argsort(first_val, kind="mergesort")', "        sorting = np.argsort(first_val)", "R-C16-split")
+B("C16", CU, "        sorted_types = [types[s] for s in sorting]", "        sorted_types = [types[s] for s in np.argsort(first_val)]", "R-C16-split")
+B("C16", CU, "            length = max(lengths_of_subbranches)", "            length = length / num_subbranches * (num_subbranches - 1)", "R-C16-split")
+B("C16", CU, "            if int(types[0]) == 1 and int(types[1]) != 1 and is_single_point_soma:", "            if int(types[0]) == 1 and is_single_point_soma:", "R-C16-forms")
+B("C16", CU, "                point_diffs[:, 1] ** 2 + point_diffs[:, 2] ** 2 + point_diffs[:, 3] ** 2", "                point_diffs[:, 1] ** 2 + point_diffs[:, 2] ** 2 + point_diffs[:, 4] ** 2", "R-C16-forms")
+P("C16", CU, "                point_diffs[:, 1] ** 2 + point_diffs[:, 2] ** 2 + point_diffs[:, 3] ** 2", "                point_diffs[:, 3] ** 2 + point_diffs[:, 1] ** 2 + point_diffs[:, 2] ** 2")
+P("C16", CU, "            dists = np.asarray([2 * radius])", "            dists = np.asarray([radius + radius])")
+# R-C11-basestate
+B("C11", BASE, "        if group_name not in self.base.groups:", "        if group_name not in self.groups:", "R-C11-basestate")
